@@ -24,6 +24,7 @@ package main
 
 import (
 	"bytes"
+	"encoding/binary"
 	"fmt"
 	"io"
 	"math"
@@ -63,7 +64,7 @@ type dictRow struct {
 }
 
 func dictRowOf(key int) dictRow {
-	r := dictRow{Bo: key&1 == 1, I32: i32Of(key), I64: i64Of(key), T96: i96Of(key), U32: mix32(key), U64: mix64(key),
+	r := dictRow{Bo: key&1 == 1, I32: i32Of(key), I64: i64Of(key), T96: i96Of(key), U32: u32Of(key), U64: u64Of(key),
 		F32: f32Of(key), F64: f64Of(key), S: string(baOf(key)), Dt: int32(key) * 3,
 		Tm: time.Unix(int64(key)*1000, int64(key)*1000).UTC()}
 	copy(r.B16[:], flbaOf(16, key))
@@ -121,45 +122,59 @@ func diffDictRow(a, b dictRow) string {
 // may first appear deep inside a batch), read back and compared.  The bulk
 // insertion routines are not reached by row-at-a-time writes.
 func dictBulk(c *core.Ctx) {
-	for _, n := range []int{1, 64, 511, 512, 513, 1100, 2500} {
-		for _, stride := range []int{1, 37, 300, 700} {
-			rows := make([]dictRow, n)
-			for i := range rows {
-				rows[i] = dictRowOf(i / stride)
+	for family := range structFamilies {
+		sizes, strides := []int{1, 64, 511, 512, 513, 1100, 2500}, []int{1, 37, 300, 700}
+		if family > 0 {
+			// the structured key families (see structBase): many distinct values per column
+			sizes, strides = []int{513, 2500}, []int{1, 3}
+			if !c.Quick() {
+				sizes, strides = []int{64, 513, 1100, 2500, 6000}, []int{1, 3, 37}
 			}
-			what := fmt.Sprintf("GenericBuffer[dictRow].Write of %d rows in one call, a new key every %d rows", n, stride)
-			replay := map[string]any{"kind": "dict-bulk", "rows": n, "stride": stride}
-			bad := ""
-			p := safely(func() {
-				buf := parquet.NewGenericBuffer[dictRow]()
-				if _, err := buf.Write(rows); err != nil {
-					bad = "write: " + err.Error()
-					return
-				}
-				out := make([]dictRow, n)
-				r := parquet.NewGenericRowGroupReader[dictRow](buf)
-				got, _ := r.Read(out)
-				r.Close()
-				if got != n {
-					bad = fmt.Sprintf("%d rows read back", got)
-					return
-				}
-				for i := range rows {
-					if d := diffDictRow(rows[i], out[i]); d != "" {
-						bad = fmt.Sprintf("row %d (key %d): column %s", i, i/stride, d)
-						return
-					}
-				}
-			})
-			c.Res.Evaluations++
-			if p != "" {
-				c.Violation("dict-bulk", what+": panic "+core.Trunc(p, 200), replay)
-			} else if bad != "" {
-				c.Violation("dict-bulk", what+": "+bad, replay)
+		}
+		for _, n := range sizes {
+			for _, stride := range strides {
+				dictBulkCase(c, family, n, stride)
 			}
-			c.Case("dict/bulk", fmt.Sprintf("%d/%d", n, stride), n > 1)
 		}
 	}
+}
+
+func dictBulkCase(c *core.Ctx, family, n, stride int) {
+	rows := make([]dictRow, n)
+	for i := range rows {
+		rows[i] = dictRowOf(structKey(family, i/stride))
+	}
+	what := fmt.Sprintf("GenericBuffer[dictRow].Write of %d rows in one call, a new key every %d rows, key family %s", n, stride, structFamilies[family])
+	replay := map[string]any{"kind": "dict-bulk", "rows": n, "stride": stride, "family": family}
+	bad := ""
+	p := safely(func() {
+		buf := parquet.NewGenericBuffer[dictRow]()
+		if _, err := buf.Write(rows); err != nil {
+			bad = "write: " + err.Error()
+			return
+		}
+		out := make([]dictRow, n)
+		r := parquet.NewGenericRowGroupReader[dictRow](buf)
+		got, _ := r.Read(out)
+		r.Close()
+		if got != n {
+			bad = fmt.Sprintf("%d rows read back", got)
+			return
+		}
+		for i := range rows {
+			if d := diffDictRow(rows[i], out[i]); d != "" {
+				bad = fmt.Sprintf("row %d (key %d): column %s", i, structKey(family, i/stride), d)
+				return
+			}
+		}
+	})
+	c.Res.Evaluations++
+	if p != "" {
+		c.Violation("dict-bulk", what+": panic "+core.Trunc(p, 200), replay)
+	} else if bad != "" {
+		c.Violation("dict-bulk", what+": "+bad, replay)
+	}
+	c.Case("dict/bulk", fmt.Sprintf("%s/%d/%d", structFamilies[family], n, stride), n > 1)
 }
 
 // ---------------------------------------------------------------------------
@@ -170,7 +185,123 @@ func dictBulk(c *core.Ctx) {
 func mix32(key int) uint32 { return uint32(key) * 0x9E3779B1 }
 func mix64(key int) uint64 { return uint64(key) * 0x9E3779B97F4A7C15 }
 
+func u32Of(key int) uint32 {
+	if key >= structBase {
+		return uint32(i32Of(key))
+	}
+	return mix32(key)
+}
+
+func u64Of(key int) uint64 {
+	if key >= structBase {
+		return uint64(i64Of(key))
+	}
+	return mix64(key)
+}
+
+// STRUCTURED keys.  The values of the keys below structBase are special values
+// and pseudo-random bytes: two distinct values differ in (nearly) every byte
+// and in every aligned word.  Real columns are not like that - big-endian
+// decimals and counters share their leading bytes, little-endian ones their
+// trailing bytes, ids share a prefix or a suffix, neighbouring values differ in
+// one byte - and a dictionary whose equality / hash looks at a part of the
+// value only is lossless on the former and not on the latter.  A key
+//
+//	family<<20 | n        (family 1..4, n < 2^20)
+//
+// stands, for a type of w bytes (4: INT32/FLOAT, 8: INT64/DOUBLE, 12: INT96,
+// w: FIXED_LEN_BYTE_ARRAY(w), byte arrays: 16, 9, 24, 33 by n), for
+//
+//	1 be     the big-endian number n+1 in w bytes: all values share their leading bytes
+//	2 le     the little-endian number n+1: all values share their trailing bytes
+//	3 byte   one fixed byte string with ONE byte changed (position n mod w, by 1 + n/w mod 255):
+//	         any two values differ in one or two bytes, every aligned half / word is shared by most
+//	4 halves both halves of the value equal (the low and the high 16 / 32 / 64 bits, w/2 bytes)
+//
+// The scenarios (dictBulk, dictLife, dictFile) are run over the plain keys and
+// over each family (structKeys maps the keys of a case into a family).
+const structBase = 1 << 20
+
+var structFamilies = []string{"plain", "be", "le", "byte", "halves"}
+
+func structKey(family, n int) int {
+	if family == 0 {
+		return n
+	}
+	return family<<20 | n&(structBase-1)
+}
+
+func structBytes(w, key int) []byte {
+	family, n := key>>20&7, key&(structBase-1)
+	b := make([]byte, w)
+	if w == 0 {
+		return b
+	}
+	switch family {
+	case 1:
+		x := uint64(n) + 1
+		for i := w - 1; i >= 0 && x > 0; i-- {
+			b[i] = byte(x)
+			x >>= 8
+		}
+	case 2:
+		x := uint64(n) + 1
+		for i := 0; i < w && x > 0; i++ {
+			b[i] = byte(x)
+			x >>= 8
+		}
+	case 3:
+		for i := range b {
+			b[i] = byte(0xA5 + 31*i)
+		}
+		b[n%w] ^= byte(1 + n/w%255)
+	default:
+		h := w / 2
+		if h == 0 {
+			b[0] = byte(n)
+			break
+		}
+		for i := 0; i < h; i++ {
+			b[i] = byte(mix64(n+1+i/8*977) >> (8 * uint(i%8)))
+			b[w-h+i] = b[i]
+		}
+	}
+	return b
+}
+
+// structKeys maps the keys of a case into a family (a copy; family 0: as it is)
+func structKeys(family int, keys []int) []int {
+	if keys == nil || family == 0 {
+		return keys
+	}
+	out := make([]int, len(keys))
+	for i, key := range keys {
+		out[i] = structKey(family, key)
+	}
+	return out
+}
+
+func structGroups(family int, groups [][][]int) [][][]int {
+	if family == 0 {
+		return groups
+	}
+	out := make([][][]int, len(groups))
+	for gi, g := range groups {
+		out[gi] = make([][]int, len(g))
+		for ri, row := range g {
+			out[gi][ri] = structKeys(family, row)
+			if row != nil && len(row) == 0 {
+				out[gi][ri] = []int{}
+			}
+		}
+	}
+	return out
+}
+
 func i32Of(key int) int32 {
+	if key >= structBase {
+		return int32(binary.LittleEndian.Uint32(structBytes(4, key)))
+	}
 	sp := []int32{0, -1, 1, math.MinInt32, math.MaxInt32, 2, -2}
 	if key < len(sp) {
 		return sp[key]
@@ -179,6 +310,9 @@ func i32Of(key int) int32 {
 }
 
 func i64Of(key int) int64 {
+	if key >= structBase {
+		return int64(binary.LittleEndian.Uint64(structBytes(8, key)))
+	}
 	sp := []int64{0, -1, 1, math.MinInt64, math.MaxInt64, 1 << 32, -(1 << 32)}
 	if key < len(sp) {
 		return sp[key]
@@ -187,6 +321,10 @@ func i64Of(key int) int64 {
 }
 
 func i96Of(key int) deprecated.Int96 {
+	if key >= structBase {
+		b := structBytes(12, key)
+		return deprecated.Int96{binary.LittleEndian.Uint32(b), binary.LittleEndian.Uint32(b[4:]), binary.LittleEndian.Uint32(b[8:])}
+	}
 	sp := []deprecated.Int96{{0, 0, 0}, {1, 0, 0}, {0, 1, 0}, {0, 0, 1}, {0xFFFFFFFF, 0xFFFFFFFF, 0xFFFFFFFF}, {0, 0, 0x80000000}}
 	if key < len(sp) {
 		return sp[key]
@@ -195,6 +333,17 @@ func i96Of(key int) deprecated.Int96 {
 }
 
 func f32Of(key int) float32 {
+	if key >= structBase {
+		// (NaN patterns with the quiet bit set, like the special values below: a
+		// signaling float32 NaN is stored bit for bit but quieted by the
+		// float32 -> float64 -> float32 conversion of the typed READERS when
+		// they fill a Go float32 field, which is not a matter of the encodings)
+		bits := binary.LittleEndian.Uint32(structBytes(4, key))
+		if bits&0x7f800000 == 0x7f800000 && bits&0x007fffff != 0 {
+			bits |= 0x00400000
+		}
+		return math.Float32frombits(bits)
+	}
 	sp := []uint32{0, 0x80000000, 0x7fc00000, 0x7fc00001, 0xffc00000, 0x7f800000, 0xff800000, 1, 0x3f800000}
 	if key < len(sp) {
 		return math.Float32frombits(sp[key])
@@ -203,6 +352,9 @@ func f32Of(key int) float32 {
 }
 
 func f64Of(key int) float64 {
+	if key >= structBase {
+		return math.Float64frombits(binary.LittleEndian.Uint64(structBytes(8, key)))
+	}
 	sp := []uint64{0, 1 << 63, 0x7ff8000000000000, 0x7ff8000000000001, 0xfff8000000000000, 0x7ff0000000000000, 0xfff0000000000000, 1, 0x3ff0000000000000}
 	if key < len(sp) {
 		return math.Float64frombits(sp[key])
@@ -211,6 +363,10 @@ func f64Of(key int) float64 {
 }
 
 func baOf(key int) []byte {
+	if key >= structBase {
+		// byte strings of 16 bytes (the first 1024 keys of a family), then 9, 24 and 33
+		return structBytes([]int{16, 9, 24, 33}[(key&(structBase-1))>>10&3], key)
+	}
 	sp := [][]byte{{}, {0}, []byte("a"), []byte("ab"), []byte("abc"), bytes.Repeat([]byte{0xff}, 300), {0, 0}, []byte("key-7\x00")}
 	if key < len(sp) {
 		return sp[key]
@@ -219,6 +375,9 @@ func baOf(key int) []byte {
 }
 
 func flbaOf(n, key int) []byte {
+	if key >= structBase {
+		return structBytes(n, key)
+	}
 	b := make([]byte, n)
 	switch key {
 	case 0:
@@ -829,6 +988,53 @@ func dictLife(c *core.Ctx) {
 			runLife(c, lc, "random")
 		}
 	}
+	// the same over the STRUCTURED key families (see structBase): the short
+	// histories up to two calls, and long histories with many distinct values
+	srng := dictRng(c, 6)
+	for family := 1; family < len(structFamilies); family++ {
+		for ki := range dictKinds {
+			k := &dictKinds[ki]
+			for _, pre := range pres {
+				for _, a := range alphabet {
+					runLife(c, &dictLifeCase{Kind: k.name, Pre: structKeys(family, pre), Ops: []dictOp{{Reset: a.Reset, Keys: structKeys(family, a.Keys)}}}, "structured-short")
+					for _, b := range alphabet {
+						runLife(c, &dictLifeCase{Kind: k.name, Pre: structKeys(family, pre), Ops: []dictOp{{Reset: a.Reset, Keys: structKeys(family, a.Keys)}, {Reset: b.Reset, Keys: structKeys(family, b.Keys)}}}, "structured-short")
+					}
+				}
+			}
+			for rep := 0; rep < c.N(2, 12); rep++ {
+				lc := &dictLifeCase{Kind: k.name}
+				span := []int{5, 40, 300, 1500, 3000}[srng.Intn(5)]
+				if srng.Intn(3) == 0 {
+					seen := map[string]bool{}
+					for _, key := range keysFrom(srng, min(1+srng.Intn(span), 700), 0, span, 2) {
+						if vk := valueKey(k.val(structKey(family, key))); !seen[vk] {
+							seen[vk] = true
+							lc.Pre = append(lc.Pre, structKey(family, key))
+						}
+					}
+				}
+				base := 0
+				for n := 2 + srng.Intn(4); n > 0; n-- {
+					if srng.Intn(4) == 0 {
+						lc.Ops = append(lc.Ops, dictOp{Reset: true})
+						base += []int{0, span / 2, span, 7 * span}[srng.Intn(4)]
+						continue
+					}
+					sz := sizes[srng.Intn(len(sizes))]
+					if c.Quick() && sz > 2600 {
+						sz = 2600
+					}
+					lc.Ops = append(lc.Ops, dictOp{Keys: structKeys(family, keysFrom(srng, sz, base, span, srng.Intn(4)))})
+					if srng.Intn(3) == 0 {
+						base += span / 2
+					}
+				}
+				runLife(c, lc, "structured-random")
+			}
+		}
+	}
+	c.Note("dictionary life cycle over structured values (key families %v: big-endian / little-endian counters = shared leading / trailing bytes, one changed byte, equal halves; for every kind: 4 / 8 / 12 byte numbers, FIXED_LEN_BYTE_ARRAY of 1, 5, 7, 12, 16, 17 bytes, byte arrays of 16, 9, 24, 33 bytes): every history of at most 2 calls and %d random long histories per kind and family over up to 3000 distinct values", structFamilies[1:], c.N(2, 12))
 }
 
 // ---------------------------------------------------------------------------
@@ -1591,6 +1797,53 @@ func dictFile(c *core.Ctx) {
 			runFile(c, fc, "buffer/"+pattern)
 		}
 	}
+	// the same over the STRUCTURED key families (see structBase): per kind and
+	// shape one file per family (splits and patterns in turn) with up to 400
+	// distinct values per group, and the typed row of all kinds per family x split
+	srng := dictRng(c, 7)
+	for rep := 0; rep < reps; rep++ {
+		for ki := range dictKinds {
+			k := &dictKinds[ki]
+			for si, shape := range shapes {
+				if k.isNull() && shape == "required" {
+					continue
+				}
+				for family := 1; family < len(structFamilies); family++ {
+					if c.Quick() && (family+si+ki+int(c.Seed))%2 == 0 {
+						continue // quick tier: every other (kind, shape, family), alternating with the seed
+					}
+					pattern := dictPatterns[pi%len(dictPatterns)]
+					split := splits[pi%len(splits)]
+					pi++
+					fc := &dictFileCase{Kind: k.name, Path: "rows", Shape: shape, Split: split,
+						Chunk:  []int{0, 0, 7, 100}[srng.Intn(4)],
+						Groups: structGroups(family, groupsOf(srng, pattern, 2+srng.Intn(2), 50+srng.Intn(500), 1+srng.Intn(400), shape)),
+						V2:     srng.Intn(3) == 0}
+					runFile(c, fc, "rows-structured/"+structFamilies[family])
+				}
+			}
+		}
+	}
+	for rep := 0; rep < c.N(1, 4); rep++ {
+		for family := 1; family < len(structFamilies); family++ {
+			for _, split := range splits {
+				pattern := dictPatterns[pi%len(dictPatterns)]
+				pi++
+				fc := &dictFileCase{Kind: "struct", Path: "typed", Split: split,
+					Chunk:  []int{0, 0, 9, 100}[srng.Intn(4)],
+					Groups: structGroups(family, groupsOf(srng, pattern, 2+srng.Intn(2), 50+srng.Intn(600), 1+srng.Intn(400), "required")),
+					V2:     srng.Intn(3) == 0}
+				runFile(c, fc, "typed-structured/"+structFamilies[family])
+			}
+			pattern := dictPatterns[pi%len(dictPatterns)]
+			pi++
+			fc := &dictFileCase{Kind: "struct", Path: "buffer",
+				Chunk:  []int{0, 100}[srng.Intn(2)],
+				Groups: structGroups(family, groupsOf(srng, pattern, 2+srng.Intn(2), 50+srng.Intn(700), 1+srng.Intn(400), "required"))}
+			runFile(c, fc, "buffer-structured/"+structFamilies[family])
+		}
+	}
+	c.Note("files over structured values: key families %v x every kind x {required, optional, repeated} (quick tier: every other combination, alternating with the seed) through WriteRows, and x {flush, maxrows, reset, abandon} through the typed GenericWriter[dictRow] and the GenericBuffer[dictRow], up to 400 distinct values per row group", structFamilies[1:])
 	names := make([]string, len(dictKinds))
 	for i := range dictKinds {
 		names[i] = dictKinds[i].name
